@@ -5,7 +5,7 @@ from vf.lazy import ck, libx, common
 from vf.monitors import algos
 
 PROP = "C01"
-TECHNIQUE = ('icontract postcondition on the real get_kemeny_score (direct and internal calls) judged online against an exact pairwise-definition oracle; refusal path checked at the call boundary; size sweep (63-1025 elements) against a vectorised reference; rankings holding empty buckets; on-demand scores of consensus objects that algorithm outputs share')
+TECHNIQUE = ('icontract postcondition on the real get_kemeny_score (direct and internal calls) judged online against an exact pairwise-definition oracle; refusal path checked at the call boundary; size sweep (63-1025 elements) against a vectorised reference; rankings holding empty buckets; on-demand scores of consensus objects that algorithm outputs share; datasets given non-uniform constructor weights; the bench_mode route')
 RULE = ("cases = (dataset class D1-D7/D12 x scheme class S1-S7 x candidate kind); a case is non-trivial when the "
         "candidate has >= 2 elements and >= 3 distinct (placement, status) cells occur with a non-zero penalty; "
         "distinct = digest of (dataset, scheme, candidate)")
